@@ -776,7 +776,7 @@ class C18(Check):
             if not cand:
                 continue
             f, args = self.rng.choice(cand)
-            args = [["I", False, x[2]] if x[0] == "I" else x for x in args if x[0] in ("I", "D", "F")] + [["I", False, ["empty"]]]
+            args = [x for x in args if x[0] in ("I", "D", "F")] + [["I", False, ["empty"]]]     # -I and -isystem as generated
             singles.append([files, [["P0", [[f, "gcc", args]]]], {"cli": False}])
         answers = common.run_model("C18", [self.encode(c) for c in singles])
         root = common.scratch() / "c18gcc"
